@@ -854,7 +854,8 @@ fn e2e_case(ctx: &mut Ctx, ps: &mut Passes, chain: bool) {
             } else {
                 // does the different reading change the selection on this input?
                 let differs = inp.lines.iter().flatten().any(|l| sem(want, l) != sem(got, l));
-                // `*` as an operand of OR / NOT is dropped by the parser (`a OR *` = `a`, `NOT *` = every line)
+                // `*` as an operand of OR / NOT stands for every line (dropped before repo commit 0ef6700:
+                // `a OR *` = `a`, `NOT *` = every line; the finding is fixed, a recurrence is an ordinary violation)
                 let star = has_star_operand(&query);
                 ctx.case(ast_fam, &key, "viol", json!({"class": if star { "C02/star-operand-dropped" } else if loose { "C02/filter-precedence-differs" } else { "C02/filter-grammar-differs-from-documented" }, "parentheses": if loose { "only where the precedence needs them" } else { "around every AND / OR" },
                     "what": if star { "a `*` operand inside OR / NOT is dropped instead of standing for every line (`a OR *` selects only lines with a, `NOT *` selects every line)" }
@@ -891,12 +892,12 @@ fn e2e_case(ctx: &mut Ctx, ps: &mut Passes, chain: bool) {
     selection_checks(ctx, ps, pfx, &query, &inp, &tree, &legacy, cs);
 }
 
-/// fixed witnesses of the finding C02/star-operand-dropped (a `*`-only operand of OR / NOT stands
-/// for every line): replayed on every run so that the finding does not depend on the seed
+/// regression witnesses of the fixed finding C02/star-operand-dropped (a `*`-only operand of OR / NOT
+/// stands for every line; repo commit 0ef6700): replayed on every run, they must pass
 fn star_witnesses(ctx: &mut Ctx) {
     let input = b"a\nb\n";
-    let cases: [(&str, &[&str]); 4] =
-        [("a OR *", &["a", "b"]), ("NOT *", &[]), ("NOT (a OR **)", &[]), ("a AND *", &["a"])];
+    let cases: [(&str, &[&str]); 6] =
+        [("a OR *", &["a", "b"]), ("NOT *", &[]), ("NOT (a OR **)", &[]), ("a AND *", &["a"]), ("\"\" OR a", &["a", "b"]), ("(NOT *) OR a", &["a"])];
     for (q, want) in cases {
         let run = imp::run(q, input, "legacy", 10);
         let text = String::from_utf8_lossy(&run.stdout).into_owned();
